@@ -9,7 +9,8 @@
         GGlob  the process-global generators (random, numpy.random, torch)
         GHash  the per-process string-hash salt (set / dict-of-str iteration order, hash(..))
         GEnt   operating-system entropy (a generator constructed without a seed)
-        GCarry state left behind by EARLIER calls: an object-level generator, or the problem's own containers permuted in place
+        GCarry state left behind by EARLIER calls: an object-level generator, the problem's own containers permuted in place,
+               or class-level state (instance counters) advanced by earlier constructions
       with `run` threading one stream per source;
    3. the seed derivation  obj_seed = digest o hash  over a small universe of Python values. *)
 From Coq Require Import String List Bool Arith ZArith.
@@ -29,6 +30,8 @@ Inductive kind :=
 | KHashDerivedSeed      (* seed computed from hash(..) (obj_seed) *)
 | KShufflesCallerObject   (* in-place shuffle of an object that may be the CALLER's (not provably a fresh copy): the problem's
                              own container is permuted, so state carries over to the next run on the same problem object *)
+| KHashOfInstanceCounter  (* hash(obj) of an object whose __hash__ reads state derived from a class-level instance counter: the
+                             value depends on how many objects the process constructed earlier *)
 | KPersistentAcrossCalls. (* generator constructed OUTSIDE the per-call entry point (in __init__ / a cached property) and
                              consumed by plan_on / train_on: its state carries over to the next call on the same object *)
 
@@ -58,7 +61,7 @@ Definition resolve (c : config) (k : kind) : gen :=
   | KGlobalIfSeedFalsy => if seed_given c && negb (seed_falsy c) then GPriv else GGlob
   | KUnseeded => GEnt
   | KHashOrder | KHash | KHashDerivedSeed => GHash
-  | KPersistentAcrossCalls | KShufflesCallerObject => GCarry
+  | KPersistentAcrossCalls | KShufflesCallerObject | KHashOfInstanceCounter => GCarry
   end.
 
 Definition uses_global (k : kind) : bool :=
@@ -66,7 +69,7 @@ Definition uses_global (k : kind) : bool :=
 Definition uses_hash (k : kind) : bool :=
   match k with KHashOrder | KHash | KHashDerivedSeed => true | _ => false end.
 Definition uses_carried (k : kind) : bool :=
-  match k with KPersistentAcrossCalls | KShufflesCallerObject => true | _ => false end.
+  match k with KPersistentAcrossCalls | KShufflesCallerObject | KHashOfInstanceCounter => true | _ => false end.
 Definition is_private (k : kind) : bool := negb (uses_global k || uses_hash k || uses_carried k).
 
 Definition site_private (s : site) : bool := is_private (s_kind s).
@@ -81,7 +84,7 @@ Definition kind_code (k : kind) : nat :=
   match k with
   | KPrivate => 0 | KParamDefaultGlobal => 1 | KGlobalIfSeedNone => 2 | KAuditedOrderFree => 3
   | KGlobal => 4 | KGlobalIfSeedFalsy => 5 | KUnseeded => 6 | KHashOrder => 7 | KHash => 8 | KHashDerivedSeed => 9
-  | KPersistentAcrossCalls => 10 | KShufflesCallerObject => 11
+  | KPersistentAcrossCalls => 10 | KShufflesCallerObject => 11 | KHashOfInstanceCounter => 12
   end.
 
 (* what the harness prints for a component: (all private?, uses a global generator?, depends on hash order?,
